@@ -17,7 +17,7 @@ LEVEL = 'exploration'
 RULE = ('Inputs from four sources: PRNG-expanded uniform bytes; structure-aware mutations (bit flips, truncation, insertion, '
         'count/rdlength/label-length overwrites, slice duplication) of valid messages rendered by the independent encoder in '
         'three compression styles; a grammar of compression graphs (forward/backward pointer chains up to 4400 hops, cycles, '
-        'self/forward/header/rdata/beyond-end references, fan-in onto long label chains, names of 200-1000 characters carried in rdata / owner / question position and referred to again by bare pointers, suffix pointers and label+pointer); and every string over '
+        'self/forward/header/rdata/beyond-end references, fan-in onto long label chains, names of 200-1000 characters carried in rdata / owner / question position and referred to again by bare pointers, suffix pointers and label+pointer; legal responses with hundreds of distinct compression targets); and every string over '
         '{00,01,3f,40,c0,0c,ff} up to a bounded length after two fixed headers (exhaustive block). Oracle: no exception, work '
         '(lines executed and Python calls inside zeroconf._protocol.incoming/_dns, counted with sys.monitoring) within a frozen '
         'budget, names <= 253 chars when valid, and equality with the strict independent decoder whenever that accepts and all '
@@ -305,6 +305,36 @@ def _graph_bytes(g: Dict[str, Any]) -> bytes:
                 out += bytes([0xC0 | ((tgt >> 8) & 0x3F), tgt & 0xFF])
             out += struct.pack('>HH', nd.get('qtype', 12), nd.get('qcls', 1))
         return bytes(out)
+    if kind == 'manytargets':
+        # a perfectly legal response: a few long names (many short labels each) and then one record per label of those names whose
+        # owner (or PTR rdata) is a fresh label followed by a backward pointer to that label - hundreds of distinct compression
+        # targets in one datagram, every name short and one hop deep
+        out = bytearray(12)
+        targets: List[int] = []
+        n_an = 0
+        for k in range(g['names']):
+            start = len(out)
+            off = start
+            for i in range(g['labels']):
+                targets.append(off)
+                lab = bytes([0x61 + (i + k) % 26]) * g['lab']
+                out += bytes([len(lab)]) + lab
+                off += 1 + len(lab)
+            out += b'\x05local\0'
+            out += struct.pack('>HHLH', 1, 1, 120, 4) + bytes([10, 0, k, 1])
+            n_an += 1
+        step = max(1, g.get('step', 1))
+        for j, tgt in enumerate(targets[::step][:g['refs']]):
+            nm = bytes([1, 0x30 + j % 10]) + bytes([0xC0 | (tgt >> 8), tgt & 0xFF])
+            if g['via'] == 'owner' or (g['via'] == 'mixed' and j % 2):
+                out += nm + struct.pack('>HHLH', 1, 1, 120, 4) + bytes([10, 1, j >> 8, j & 0xFF])
+            else:
+                out += b'\x01p\x05local\0' + struct.pack('>HHLH', 12, 1, 120, len(nm)) + nm
+            n_an += 1
+            if len(out) > 8900:
+                break
+        struct.pack_into('>6H', out, 0, 0, 0x8400, 0, n_an, 0, 0)
+        return bytes(out[:8966])
     if kind == 'longname':
         # a name whose text form has `total` characters (labels <= 63 bytes each), carried in the rdata of a PTR/SRV/NSEC record,
         # as the owner of an A record or as a question name; later records refer to it: by a bare pointer to its start, by a
@@ -441,7 +471,12 @@ def msg_case(draw, mutate: bool) -> Dict[str, Any]:
 
 @st.composite
 def graph_case(draw) -> Dict[str, Any]:
-    which = draw(st.sampled_from(['chain', 'chain', 'chain', 'fanin', 'fanin', 'nodes', 'nodes', 'longname', 'longname']))
+    which = draw(st.sampled_from(['chain', 'chain', 'chain', 'fanin', 'fanin', 'nodes', 'nodes', 'longname', 'longname', 'manytargets']))
+    if which == 'manytargets':
+        g = {'kind': 'manytargets', 'names': draw(st.sampled_from([1, 2, 3, 4])), 'labels': draw(st.sampled_from([20, 60, 64, 65, 100, 120])),
+             'lab': draw(st.sampled_from([1, 1, 2])), 'refs': draw(st.sampled_from([10, 127, 128, 129, 130, 200, 400])),
+             'step': draw(st.sampled_from([1, 1, 2])), 'via': draw(st.sampled_from(['owner', 'ptr-rdata', 'mixed']))}
+        return {'src': 'graph', 'g': g}
     if which == 'longname':
         g = {'kind': 'longname', 'total': draw(st.one_of(st.sampled_from([200, 252, 253, 254, 255, 256, 257, 300, 320, 1000]), st.integers(240, 270))),
              'lab': draw(st.sampled_from([63, 63, 62, 31, 1])),
